@@ -156,6 +156,29 @@ Theorem C30_count_zero_at_quiescence : forall (cs : list conn) (sched : list nat
 Proof. exact count_zero_at_quiescence. Qed.
 Print Assumptions C30_count_zero_at_quiescence.
 
+(* lite.Forward itself: it leaves through one of four exit paths (no route / all dials failed /
+   hand-over of the client's buffered bytes failed / piped until one side closed); only the last
+   one executes TrackConnection and it defers the release right behind it, so a Forward contributes
+   [prog c] or nothing ([fwd_thread]).  Every path that tracks releases afterwards, and for any
+   number of Forwards leaving through any paths, under any schedule, the count equals the number
+   of Forwards currently piping and is 0 when all have returned. *)
+Theorem C30_forward_tracks_then_releases : forall x c pre post,
+  fwd_thread (x, c) = pre ++ a_track c :: post -> In (a_release c) post.
+Proof. exact fwd_tracks_then_releases. Qed.
+Print Assumptions C30_forward_tracks_then_releases.
+
+Theorem C30_forward_count_eq_open : forall (fs : list (fwd_exit * conn)) (sched : list nat),
+  let r := run (map fwd_thread fs) sched init_state in
+  active_total (final_state r) = N.of_nat (open_threads (remaining r)).
+Proof. exact forward_count_eq_open. Qed.
+Print Assumptions C30_forward_count_eq_open.
+
+Theorem C30_forward_count_zero_at_quiescence : forall (fs : list (fwd_exit * conn)) (sched : list nat),
+  let r := run (map fwd_thread fs) sched init_state in
+  complete (remaining r) = true -> active_total (final_state r) = 0.
+Proof. exact forward_count_zero_at_quiescence. Qed.
+Print Assumptions C30_forward_count_zero_at_quiescence.
+
 (* the thread steps are the sequential model the judge replays *)
 Theorem C30_prog_is_track_release : forall c s,
   fst (l_inc c (fst (a_track c s))) = track (fst c) (snd c) s
